@@ -609,6 +609,114 @@ func init() {
 			}
 		}})
 
+	register(&Obligation{ID: "C09.i", Props: []string{"C09", "C06"}, Template: "completeness-loop+index-alignment",
+		Desc: "Operator.HandleDeploy knows every other operator as a neighbour: the loop over req.Operators skips only its own index (continue, never break) and builds neighbour i from keyGroupRanges[i] and operator i, so ExclusivelyOwnsTable asks every operator whose range may overlap a shared table",
+		Run: func(r *Run) {
+			f := r.P.Func("workers/operator", "(*Operator).HandleDeploy")
+			info := f.Pkg.TypesInfo
+			opsF := r.P.Field("proto/workerpb", "DeployOperatorRequest", "Operators")
+			npT := r.P.TypeName("workers/operator", "neighborPartition")
+			kgr := r.P.FuncObj("partitioning", "(*KeySpace).KeyGroupRanges")
+			var loop *ast.RangeStmt
+			ast.Inspect(f.Decl.Body, func(nd ast.Node) bool {
+				rs, ok := nd.(*ast.RangeStmt)
+				if !ok || prog.SelField(info, rs.X) != opsF {
+					return true
+				}
+				has := false
+				ast.Inspect(rs.Body, func(m ast.Node) bool {
+					if cl, ok := m.(*ast.CompositeLit); ok && info.TypeOf(cl) == npT.Type() {
+						has = true
+					}
+					return true
+				})
+				if has {
+					loop = rs
+				}
+				return true
+			})
+			if loop == nil {
+				r.Error("undecided: HandleDeploy no longer builds neighborPartition values in a loop over req.Operators")
+				return
+			}
+			r.Site(loop.Pos(), "HandleDeploy: neighbour loop")
+			iv, ov := prog.IdentObj(info, loop.Key), types.Object(nil)
+			if loop.Value != nil {
+				ov = prog.IdentObj(info, loop.Value)
+			}
+			// own index: local defined by slices.IndexFunc(req.Operators, ...)
+			var own types.Object
+			ast.Inspect(f.Decl.Body, func(nd ast.Node) bool {
+				if as, ok := nd.(*ast.AssignStmt); ok && len(as.Lhs) == 1 && len(as.Rhs) == 1 {
+					if c, ok := isCallToNamed(info, as.Rhs[0], "slices", "IndexFunc"); ok && len(c.Args) == 2 && prog.SelField(info, c.Args[0]) == opsF {
+						own = prog.IdentObj(info, as.Lhs[0])
+					}
+				}
+				return true
+			})
+			ast.Inspect(loop.Body, func(m ast.Node) bool {
+				switch x := m.(type) {
+				case *ast.FuncLit:
+					return false
+				case *ast.BranchStmt:
+					if x.Tok == token.BREAK || x.Tok == token.GOTO {
+						r.Fail(f.Name()+":neighbour-break", x.Pos(), nil, "the neighbour loop is left early (%s): operators listed after that point are not known as neighbours, are never asked whether they need a shared table, and the table is deleted", x.Tok)
+					}
+				case *ast.IfStmt:
+					skips := false
+					for _, st := range x.Body.List {
+						if b, ok := st.(*ast.BranchStmt); ok && b.Tok == token.CONTINUE {
+							skips = true
+						}
+					}
+					if skips {
+						okCond := false
+						if b, ok := ast.Unparen(x.Cond).(*ast.BinaryExpr); ok && b.Op == token.EQL && own != nil && iv != nil {
+							l, rr := prog.IdentObj(info, b.X), prog.IdentObj(info, b.Y)
+							if (l == iv && rr == own) || (l == own && rr == iv) {
+								okCond = true
+							}
+						}
+						if !okCond {
+							r.Fail(f.Name()+":neighbour-skip", x.Pos(), nil, "an operator other than this one can be skipped when the neighbours are collected (the only accepted skip is i == ownIndex)")
+						}
+					}
+				case *ast.CompositeLit:
+					if info.TypeOf(x) != npT.Type() {
+						return true
+					}
+					okRange, okOp := false, false
+					for _, el := range x.Elts {
+						kv, ok := el.(*ast.KeyValueExpr)
+						if !ok {
+							continue
+						}
+						switch kv.Key.(*ast.Ident).Name {
+						case "keyGroupRange":
+							if ix, ok := ast.Unparen(kv.Value).(*ast.IndexExpr); ok && iv != nil && prog.IdentObj(info, ix.Index) == iv {
+								def := resolveLocal(info, f.Decl.Body, ix.X)
+								if c, ok := ast.Unparen(def).(*ast.CallExpr); ok && r.P.CalleeFunc(info, c) == kgr {
+									okRange = true
+								}
+							}
+						case "operator":
+							ast.Inspect(kv.Value, func(q ast.Node) bool {
+								if id, ok := q.(*ast.Ident); ok && ov != nil && info.Uses[id] == ov {
+									okOp = true
+								}
+								return true
+							})
+						}
+					}
+					r.Site(x.Pos(), "neighbour i = (keyGroupRanges[i], operator i)")
+					if !okRange || !okOp {
+						r.Fail(f.Name()+":neighbour-alignment", x.Pos(), nil, "neighbour i must pair keyGroupRanges[i] with operator i (range ok: %v, operator ok: %v): a mismatch asks the wrong operator about a shared table", okRange, okOp)
+					}
+				}
+				return true
+			})
+		}})
+
 	register(&Obligation{ID: "C09.f", Props: []string{"C09", "C13"}, Template: "partition-loop",
 		Desc: "recovery.(*CheckpointList).RetainOnly keeps a checkpoint iff its id is in the given set, moves every other one to checkpointsPendingRemoval, panics rather than retaining nothing; IncludesTable consults every retained checkpoint; DB.NeedsTable answers from it",
 		Run: func(r *Run) {
